@@ -1,2 +1,140 @@
-(* C09 — theorems are added below as they are proved. *)
-From Anko Require Import Interp.Model.
+(* C09 — errors reach the nearest try; deferred calls run once, LIFO, on every exit. *)
+From Coq Require Import String List ZArith Bool Arith Lia.
+From Anko Require Import Base.Assoc Env.EnvModel Interp.Ast Interp.Value Interp.ToX Interp.Equal Interp.Model
+     Interp.ScopeProofs Interp.DeferProofs.
+Import ListNotations.
+
+(* deferred calls do not alter the invocation's result: for any number of deferred calls, whatever
+   they do, the result register after running them is the one before *)
+Theorem deferred_calls_keep_the_result : forall orc cancel_at fuel ds err0 s,
+  match exec orc cancel_at fuel (CDefers ds err0) s with
+  | Ok s' | Err _ s' => r_rv s' = r_rv s
+  | Abort _ => True
+  end.
+Proof. exact defers_keep_rv. Qed.
+
+(* an error raised by a deferred call surfaces only if the body itself did not fail *)
+Theorem body_error_wins_over_deferred_errors : forall orc cancel_at fuel ds e0 s,
+  e0 <> ESentinel SReturnS ->
+  match exec orc cancel_at fuel (CDefers ds (Some e0)) s with
+  | Ok _ => False
+  | Err e _ => e = e0
+  | Abort _ => True
+  end.
+Proof. exact defers_keep_body_error. Qed.
+
+(* every registered call is run exactly once, last registered first: the loop takes the head of the
+   reversed registration list, applies it once, and continues with the tail; an invocation hands
+   over [rev (r_defers _)] and clears its list (run_vm_func / run_context) *)
+Theorem deferred_calls_run_one_by_one : forall rec d r err0 s,
+  run_defers rec (d :: r) err0 s =
+    match rec (CApply (d_fn d) (d_args d) (d_slice d)) s with
+    | Abort a => Abort a
+    | Ok s1 => rec (CDefers r err0) (set_rv s1 (r_rv s))
+    | Err e s1 =>
+        rec (CDefers r (match err0 with None | Some (ESentinel SReturnS) => Some e | Some x => Some x end))
+            (set_rv s1 (r_rv s))
+    end.
+Proof. reflexivity. Qed.
+
+Theorem invocation_runs_its_defers_in_reverse_and_clears_them : forall rec c args s cl st1 e st2 c1,
+  nth_error (st_closures (r_st s)) c = Some cl ->
+  env_new (r_st s) (cl_env cl) = (st1, e) ->
+  define_params st1 e (cl_params cl) args = Some st2 ->
+  rec (CStmt (cl_body cl)) (mkR st2 e rv_nil []) = Ok c1 -> r_defers c1 <> [] ->
+  run_vm_func rec c args s =
+    match rec (CDefers (rev (r_defers c1)) None) (set_defers c1 []) with
+    | Abort a => Abort a
+    | Ok c2 => Ok (set_rv (set_st s (r_st c2)) (r_rv c2))
+    | Err (ESentinel SReturnS) c2 => Ok (set_rv (set_st s (r_st c2)) (r_rv c2))
+    | Err e0 c2 => Err (wrap_err e0) (set_rv (set_st s (r_st c2)) rv_nil)
+    end.
+Proof.
+  intros rec c args s cl st1 e st2 c1 Hc He Hd Hb Hnd. unfold run_vm_func. rewrite Hc, He, Hd. cbv zeta.
+  rewrite Hb. destruct (r_defers c1); [contradiction|reflexivity].
+Qed.
+
+(* defer evaluates callee and arguments at the defer statement: what is registered are values *)
+Theorem defer_registers_evaluated_arguments : forall rec f args s cl c,
+  f = VFunc c -> nth_error (st_closures (r_st s)) c = Some cl -> cl_vararg cl = false ->
+  length (cl_params cl) = length args -> 1 <= length args ->
+  register_defer rec f args false s =
+    eval_rvals rec args s [] (fun argv s1 => Ok (set_rv (set_defers s1 (r_defers s1 ++ [mkD f argv false])) rv_nil)).
+Proof.
+  intros rec f args s cl c -> Hc Hv Hl Hn. unfold register_defer. rewrite Hc, Hv. cbv zeta. cbn [orb].
+  destruct (length (cl_params cl) <? 1) eqn:E1; [apply Nat.ltb_lt in E1; rewrite Hl in E1; lia|].
+  rewrite Hl, Nat.eqb_refl. reflexivity.
+Qed.
+
+(* try: an error of the body (anything but the interrupt sentinel) runs the catch block with the
+   error bound to the catch variable; the interrupt passes; finally runs after success or a caught error *)
+Theorem try_passes_the_interrupt : forall rec t v c f s st1 e1 s1,
+  env_new (r_st s) (r_env s) = (st1, e1) ->
+  rec (CStmt t) (set_env (set_st s st1) e1) = Err (ESentinel SInterruptS) s1 ->
+  run_try rec t v c f s = Err (ESentinel SInterruptS) (set_env s1 (r_env s)).
+Proof. intros rec t v c f s st1 e1 s1 He Ht. unfold run_try. rewrite He, Ht. reflexivity. Qed.
+
+Theorem try_runs_catch_with_the_error_bound : forall rec t v c s st1 e1 s1 m,
+  env_new (r_st s) (r_env s) = (st1, e1) -> v <> ""%string ->
+  rec (CStmt t) (set_env (set_st s st1) e1) = Err (EVm m) s1 ->
+  run_try rec t v c None s =
+    match rec (CStmt c) (set_st s1 (env_define (r_st s1) (r_env s1) v (Imm (VErr (EVm m))))) with
+    | Abort a => Abort a
+    | Err e2 s2 => Err e2 (set_env s2 (r_env s))
+    | Ok s2 => Ok (set_env s2 (r_env s))
+    end.
+Proof.
+  intros rec t v c s st1 e1 s1 m He Hv Ht. unfold run_try. rewrite He, Ht.
+  destruct (String.eqb v "") eqn:E; [apply String.eqb_eq in E; contradiction|]. reflexivity.
+Qed.
+
+Theorem finally_runs_after_success : forall rec t v c fi s st1 e1 s1,
+  env_new (r_st s) (r_env s) = (st1, e1) ->
+  rec (CStmt t) (set_env (set_st s st1) e1) = Ok s1 ->
+  run_try rec t v c (Some fi) s =
+    match rec (CStmt (Some fi)) s1 with
+    | Ok s3 => Ok (set_env s3 (r_env s))
+    | Err e s3 => Err e (set_env s3 (r_env s))
+    | Abort a => Abort a
+    end.
+Proof. intros rec t v c fi s st1 e1 s1 He Ht. unfold run_try. rewrite He, Ht. reflexivity. Qed.
+
+(* after the failing point nothing of the statement list executes *)
+Theorem statement_list_aborts_on_first_error : forall rec st l s e s1,
+  match st with SBreak | SContinue | SReturn _ => False | _ => True end ->
+  rec (CStmt (Some st)) s = Err e s1 -> run_stmts rec (st :: l) s = Err e s1.
+Proof. intros rec st l s e s1 Hst H. destruct st; try contradiction; cbn [run_stmts]; now rewrite H. Qed.
+
+(* an uncaught error of a script function reaches the caller as an error of the call *)
+Theorem callee_error_is_an_error_of_the_call : forall orc cancel_at fuel f args cs s e s',
+  exec orc cancel_at fuel (CApply f args cs) s = Err e s' ->
+  match e with ESentinel _ => False | _ => True end /\ r_env s' = r_env s.
+Proof.
+  intros orc cancel_at fuel f args cs s e s' Hx. pose proof (exec_env orc cancel_at fuel (CApply f args cs) s) as H.
+  rewrite Hx in H. cbn [strict_cmd err_pred env_eq post_env] in H.
+  destruct H as [[H _]|[H1 H2]]; [discriminate|split; assumption].
+Qed.
+
+Print Assumptions deferred_calls_keep_the_result.
+Print Assumptions body_error_wins_over_deferred_errors.
+Print Assumptions invocation_runs_its_defers_in_reverse_and_clears_them.
+Print Assumptions defer_registers_evaluated_arguments.
+Print Assumptions try_passes_the_interrupt.
+Print Assumptions try_runs_catch_with_the_error_bound.
+Print Assumptions callee_error_is_an_error_of_the_call.
+
+(* non-vacuity: two defers in a function that then fails; both run, last first, and the body's error wins *)
+Open Scope string_scope.
+Definition ex_c09 : stmt :=
+  SStmts [SExpr (EFunc "f" (Some (SStmts [
+            SDefer (ECall "probe" [ELit (LInt 1)] false false);
+            SDefer (ECall "probe" [ELit (LInt 2)] false false);
+            SThrow (ELit (LStr "x"))])) [] false);
+          STry (Some (SStmts [SExpr (ECall "f" [] false false)])) "e" (Some (SStmts [SExpr (ECall "probe" [ELit (LInt 3)] false false)])) None].
+Example ex_c09_runs :
+  match exec (mkOracle [] []) None 400 (CStmt (Some ex_c09))
+             (mkR (mkStore [mkScope None [("probe", Imm (VHost 0))] [] None] [] [] [] [] 0) 0 rv_nil []) with
+  | Ok s' => st_trace (r_st s') = [[VInt 3]; [VInt 1]; [VInt 2]]
+  | _ => False
+  end.
+Proof. vm_compute. reflexivity. Qed.
